@@ -35,7 +35,10 @@ SIZE_Q = 'minecraft.networking.types.basic.VarInt.size'
 NOMINAL = {'VarInt': 5, 'VarLong': 10}
 
 
-def _raw(cls, name):
+from .common import raw as _raw  # noqa: E402  (MRO-aware)
+
+
+def _raw_old(cls, name):
     return cls.__dict__[name].__func__ if isinstance(cls.__dict__.get(name), (staticmethod, classmethod)) \
         else getattr(cls, name)
 
@@ -227,7 +230,7 @@ class SendCanonical(Unit):
             return ('raise', e.exc)
         out = sock.out
         ts = out.byte_terms()
-        E.check('send.one-send', len(sock.sends) == 1)
+        E.check('send.sends-something', len(sock.sends) >= 1, note='the encoding is handed to the socket (in however many pieces)')
         if ts is None:
             E.check('send.bytes', False, note='output is not a byte sequence')
             return ('out', out)
@@ -356,7 +359,7 @@ class SendTerminates(Unit):
             E.check('send.raise-only-outside-domain', n < 0,
                     note='%r raised for a non-negative value' % (e.exc,))
             return 'raised'
-        E.check('send.one-send', len(sock.sends) == 1)
+        E.check('send.sends-something', len(sock.sends) >= 1, note='the encoding is handed to the socket (in however many pieces)')
         return 'returned'
 
     def replay(self, model, label):
